@@ -34,6 +34,17 @@ def showOpt : Option Nat → String
 inductive Op
   | size (ins : List (InKind × Nat)) (outs : List OutKind)
   | der (r s : Nat)
+  | flow (est real : Nat)
+
+def parseOptSig (s : String) : Option (Option Nat) :=
+  if s = "-" then some none else s.toNat?.map some
+
+/-- `e:72` / `n:71` -/
+def parseDep (s : String) : Option (Bool × Nat) :=
+  match s.splitOn ":" with
+  | ["e", sl] => do pure (true, ← sl.toNat?)
+  | ["n", sl] => do pure (false, ← sl.toNat?)
+  | _ => none
 
 def parseOp (line : String) : Option Op :=
   match splitWs line with
@@ -42,6 +53,20 @@ def parseOp (line : String) : Option Op :=
     if ins.isEmpty then none else
     pure (.size ins (← (splitList outs).mapM parseOut))
   | ["der", r, s] => do pure (.der (← parseHexNat r) (← parseHexNat s))
+  | ["txsweep", main, deps] => do
+    let deps ← (splitList deps).mapM parseDep
+    if deps.isEmpty then none else
+    pure (.flow (sweepEst deps.length) (sweepReal (← parseOptSig main) deps))
+  | ["txredeem", sig, ch, outs] => do
+    let outs ← (splitList outs).mapM parseOut
+    if outs.isEmpty then none else
+    pure (.flow (redeemEst outs) (redeemReal (← sig.toNat?) (ch = "1") outs))
+  | ["txmove", sig, n] => do
+    let n ← n.toNat?
+    pure (.flow (moveEst n) (moveReal (← sig.toNat?) n))
+  | ["txmsweep", moved, main] => do
+    let main ← parseOptSig main
+    pure (.flow (msweepEst main.isSome) (msweepReal (← moved.toNat?) main))
   | _ => none
 
 def model (line : String) : String :=
@@ -49,6 +74,7 @@ def model (line : String) : String :=
   | some (.size ins outs) =>
     "est=" ++ showOpt (estimate (ins.map (·.1)) outs) ++ " real=" ++ showOpt (realSize ins outs)
   | some (.der r s) => s!"len={derSigLen r s}"
+  | some (.flow e r) => s!"est={e} real={r}"
   | none => "bad-op"
 
 def parseOptNat (s : String) : Option (Option Nat) :=
@@ -65,6 +91,15 @@ def monitor (op obs : String) : String :=
         | some est, some real =>
           if holds ins est real then "ok" else "FAIL estimate-undershoots-real-size"
         | _, _ => "FAIL unparsable-observation"
+      else "FAIL unparsable-observation"
+    | _ => "FAIL unparsable-observation"
+  | some (.flow _ _) =>
+    match splitWs obs with
+    | [e, r] =>
+      if e.startsWith "est=" && r.startsWith "real=" then
+        match (e.drop 4).toString.toNat?, (r.drop 5).toString.toNat? with
+        | some est, some real => if real ≤ est then "ok" else "FAIL fee-estimate-undershoots-assembled-transaction"
+        | _, _ => "FAIL estimator-or-builder-error"
       else "FAIL unparsable-observation"
     | _ => "FAIL unparsable-observation"
   | some (.der r s) =>
